@@ -208,7 +208,7 @@ struct Peer {
       { std::lock_guard<std::mutex> g(mx); if (stop) break; if (!to_send.empty()) { want = to_send.front(); to_send.pop_front(); } if (close_req && to_send.empty() && want < 0) do_close = true; }
       if (want > 0) {
         string buf((size_t)want, 0); for (long i = 0; i < want; i++) buf[(size_t)i] = (char)pat(2, out_pos + (size_t)i);
-        size_t off = 0; while (off < buf.size()) { size_t chunk = mode == 2 ? buf.size() - off : std::min<size_t>(buf.size() - off, mode == 1 ? 700 : 8192); ssize_t n = ::send(fd, buf.data() + off, chunk, MSG_NOSIGNAL); if (n <= 0) { if (errno == EAGAIN || errno == EINTR) { usleep(200); continue; } break; } off += (size_t)n; if (mode == 1) usleep(150); }
+        size_t off = 0; while (off < buf.size()) { size_t chunk = mode == 2 ? buf.size() - off : std::min<size_t>(buf.size() - off, mode == 1 ? 700 : 8192); ssize_t n = ::send(fd, buf.data() + off, chunk, MSG_NOSIGNAL); if (n <= 0) { if (errno == EAGAIN || errno == EINTR) { { std::lock_guard<std::mutex> g(mx); if (stop) break; } usleep(200); continue; } break; } off += (size_t)n; if (mode == 1) usleep(150); }
         std::lock_guard<std::mutex> g(mx); out_pos += (size_t)want;
       }
       if (do_close) { ::close(fd); std::lock_guard<std::mutex> g(mx); closed = true; break; }
@@ -439,7 +439,7 @@ Outcome run_c10(const Case &c) {
       else if (!m.bound) { PSocketAddress *ad = p_socket_address_new(m.fam == 6 ? "::1" : "127.0.0.1", 0); if (p_socket_bind(m.s, ad, TRUE, &err)) { m.bound = true; PSocketAddress *l = p_socket_get_local_address(m.s, NULL); m.port = p_socket_address_get_port(l); p_socket_address_free(l); } p_socket_address_free(ad); }
     } else if (cmd == "listen") {
       if (m.closed) { long cb = W.calls_total; pboolean r = p_socket_listen(m.s, &err); expect_not_available(i, "listen", !r, err, cb); }
-      else if (m.tcp && m.bound && !m.connected) { if (p_socket_listen(m.s, &err)) m.listening = true; else fail("listen", "listen on a bound stream socket failed: " + errstr(err)); }
+      else if (m.tcp && m.bound && !m.connected && !m.connect_tried) { if (p_socket_listen(m.s, &err)) m.listening = true; else fail("listen", "listen on a bound stream socket failed: " + errstr(err)); }
     } else if (cmd == "accept") {
       long cb = W.calls_total, pb = W.polls;
       if (m.closed) { PSocket *r = p_socket_accept(m.s, &err); expect_not_available(i, "accept", r == NULL, err, cb); if (r) p_socket_free(r); }
@@ -553,7 +553,7 @@ Outcome run_c19(const Case &c) {
   auto fail = [&](const string &k, const string &m) { if (out.verdict.empty()) { out.verdict = m; out.klass = k; } };
   Storm storm; long storm_period = c.p2; // 0 = no storm
   g_signals = 0; g_signals_in_call = 0;
-  char uq[48]; snprintf(uq, sizeof uq, "v19_%d_%ld", (int)getpid(), (long)W.calls_total);
+  char uq[80]; snprintf(uq, sizeof uq, "v19_%d_%lx", (int)getpid(), ({ struct timespec ts_; clock_gettime(CLOCK_MONOTONIC, &ts_); (long)(ts_.tv_sec * 1000000000L + ts_.tv_nsec); }));
   const string &sc = c.scen;
   if (sc == "sleep") {
     long ms = c.p1;
